@@ -154,6 +154,29 @@ theorem getLsbD_of_valid {m : Mask} (h : m &&& ~~~valid = 0#32) {i : Nat} (hi : 
   · exact BitVec.getLsbD_of_ge _ i (by omega)
 
 
+/-- "within `ValidEvents`" is "at most 8191" -/
+theorem within_valid_iff (m : Mask) : m &&& ~~~valid = 0#32 ↔ m.toNat ≤ 8191 := by
+  constructor
+  · intro h
+    have : m.toNat < 2 ^ 13 := by
+      apply Nat.lt_pow_two_of_testBit
+      intro i hi
+      have := getLsbD_of_valid h hi
+      simpa [BitVec.getLsbD] using this
+    omega
+  · intro h
+    apply BitVec.eq_of_getLsbD_eq
+    intro i hi
+    rw [BitVec.getLsbD_and, BitVec.getLsbD_not, getLsbD_valid]
+    by_cases h13 : i < 13
+    · simp [h13]
+    · have : m.getLsbD i = false := by
+        rw [BitVec.getLsbD]
+        apply Nat.testBit_lt_two_pow
+        have : 2 ^ 13 ≤ 2 ^ i := Nat.pow_le_pow_right (by omega) (by omega)
+        omega
+      simp [this]
+
 /-! ## `PrettyString`: the loop, read as "the list of set events" and "what is left" -/
 
 /-- the event numbers `prettyLoop` finds set, in order -/
